@@ -9,7 +9,7 @@ use crate::symbol_table::{ResolveError, ResolveErrorCause};
 use serde::{Deserialize, Serialize};
 use std::cell::RefCell;
 use std::rc::Rc;
-use veryl_parser::resource_table::TokenId;
+use veryl_parser::resource_table::{self, PathId, StrId, TokenId};
 use veryl_parser::token_range::TokenRange;
 use veryl_parser::veryl_grammar_trait::{
     ExpressionIdentifier, GenericArgIdentifier, HierarchicalIdentifier, Identifier,
@@ -57,6 +57,25 @@ pub enum ReferenceCandidate {
         arg: ExpressionIdentifier,
         function: ExpressionIdentifier,
     },
+}
+
+impl ReferenceCandidate {
+    /// The identifier token that anchors this candidate in its source file.
+    fn anchor_token(&self) -> Token {
+        match self {
+            Self::Identifier { arg } => arg.identifier_token.token,
+            Self::HierarchicalIdentifier { arg } => arg.identifier.identifier_token.token,
+            Self::ScopedIdentifier { arg, .. } => arg.identifier().token,
+            Self::ExpressionIdentifier { arg } => arg.scoped_identifier.identifier().token,
+            Self::GenericArgIdentifier { arg } => arg.scoped_identifier.identifier().token,
+            Self::ImportItem { arg, .. } => arg.identifier_token.token,
+            Self::ModportItem { arg } => arg.identifier.identifier_token.token,
+            Self::InstParameterItem { arg } => arg.identifier.identifier_token.token,
+            Self::InstPortItem { arg } => arg.identifier.identifier_token.token,
+            Self::StructConstructorItem { arg, .. } => arg.identifier.identifier_token.token,
+            Self::NamedArgument { arg, .. } => arg.scoped_identifier.identifier().token,
+        }
+    }
 }
 
 impl From<&Identifier> for ReferenceCandidate {
@@ -917,4 +936,20 @@ pub fn export_candidates_since(watermark: usize) -> Vec<ReferenceCandidate> {
 
 pub fn apply() -> Vec<AnalyzerError> {
     REFERENCE_TABLE.with(|f| f.borrow_mut().apply())
+}
+
+/// Removes the pending candidates registered by one file (see
+/// `Analyzer::drop_file`). Must run before `scope::drop_tokens`, which it
+/// consults for the owning project. Without this, candidates of a file's
+/// earlier text survive until the next `apply` and are resolved against
+/// token scopes that no longer exist.
+pub fn drop(file_path: PathId, prj: Option<StrId>) {
+    let prj = prj.map(resource_table::canonical_str_id);
+    REFERENCE_TABLE.with(|f| {
+        f.borrow_mut().candidates.retain(|x| {
+            let token = x.anchor_token();
+            !(token.source == file_path
+                && (prj.is_none() || scope::token_project(token.id) == prj))
+        })
+    })
 }
